@@ -63,21 +63,26 @@ func (s *unicastSubjectImpl[T]) SubscribeWithContext(subscriberCtx context.Conte
 	subscription := NewSubscriber(destination)
 
 	s.mu.Lock()
-	defer s.mu.Unlock()
 
 	switch s.status {
 	case KindNext:
 		// fallthrough
 	case KindError:
 		subscription.ErrorWithContext(s.err.A, s.err.B)
+		s.mu.Unlock()
+
 		return subscription
 	case KindComplete:
 		subscription.CompleteWithContext(subscriberCtx)
+		s.mu.Unlock()
+
 		return subscription
 	}
 
 	if s.observer != nil {
 		subscription.ErrorWithContext(subscriberCtx, ErrUnicastSubjectConcurrent)
+		s.mu.Unlock()
+
 		return subscription
 	}
 
@@ -89,6 +94,11 @@ func (s *unicastSubjectImpl[T]) SubscribeWithContext(subscriberCtx context.Conte
 
 	s.observer = subscription
 
+	s.mu.Unlock()
+
+	// The teardown takes s.mu: it is registered once the lock has been released, because
+	// Add runs it at once when the subscriber is already closed (it was unsubscribed before,
+	// or it unsubscribed itself while the queued values were replayed).
 	subscription.Add(func() {
 		s.mu.Lock()
 		s.observer = nil
